@@ -69,6 +69,18 @@ def step (_ : Unit) (line : String) : Unit × String :=
         | .decodeErr => "decodeErr"
         | .panic => "panic"
       | none => "bad-op"
+    | ["srvseq", hs] =>
+      -- frames are decoded independently: a request holds what its own frame carried
+      let outs := (hs.splitOn ",").map fun h =>
+        match Hex.decode h with
+        | some bs =>
+          match (serverFrame (genCfg maxAllocDefault 0) genReqs bs).1 with
+          | .request id t vs => s!"request id={id} typ={t} vals=[{showVals vs}]"
+          | .unknownType id t => s!"unknownType id={id} typ={t}"
+          | .decodeErr => "decodeErr"
+          | .panic => "panic"
+        | none => "bad-op"
+      " ; ".intercalate outs
     | "cli" :: rest =>
       match kv rest "pend", kvNat rest "cap", rest.getLast?.bind Hex.decode with
       | some p, some cap, some bs =>
